@@ -175,10 +175,14 @@ class SqlalchemyRender:
                 "or": sa.or_,
             }
 
-            arg0 = self.to_expression(t.args[0])
-            arg1 = self.to_expression(t.args[1])
-
             op = t.op.lower()
+            arg0 = self.to_expression(t.args[0])
+            if op in ('in', 'not in') and isinstance(t.args[1], ast.Tuple):
+                # in_() takes the list of values
+                arg1 = [self.to_expression(i) for i in t.args[1].items]
+            else:
+                arg1 = self.to_expression(t.args[1])
+
             if op in ('in', 'not in'):
                 if isinstance(arg1, sa.sql.selectable.ColumnClause):
                     raise NotImplementedError(f'Required list argument for: {op}')
@@ -280,10 +284,10 @@ class SqlalchemyRender:
             if t.alias:
                 raise NotImplementedError('Parameter with alias')
         elif isinstance(t, ast.Tuple):
-            col = [
+            col = sa.tuple_(*[
                 self.to_expression(i)
                 for i in t.items
-            ]
+            ])
         elif isinstance(t, ast.Variable):
             col = sa.column(t.to_string(), is_literal=True)
         elif isinstance(t, ast.Latest):
